@@ -18,12 +18,16 @@ RULE = ("scenario = start state {empty, p1->X, p1,p2->X, X unreferenced, p1->mis
         "outcome, final directory abstraction) must equal that of some sequential order of the same calls run on "
         "the same code (a store_object rejected 'already in progress' while another store_object for the same pid "
         "is in the scenario is the one extra outcome allowed); no deadlock. distinct_nontrivial = distinct "
-        "(scenario, interleaving) pairs executed, interleaving = the sequence of thread indices at yield points.")
+        "(scenario, interleaving) pairs executed, interleaving = the sequence of thread indices at yield points. "
+        "thorough adds 2400 free-running histories (3-4 real threads x 2-3 calls, seeded micro-delays at file-system "
+        "calls) checked by a Wing-Gong search against the reference model - an independent cross-check of the "
+        "yield-point assumption.")
 ASSUMPTIONS = ["yield points = shared file-system calls + condition operations; under the GIL these are the only "
                "places where threads of this code base communicate (DESIGN.md 3.4/6)",
                "directory-level stat/mkdir are not scheduling points (they commute: directories are never removed)",
                "the sequential specification is the implementation run without preemption"]
-SYMPTOMS = {"deadlock", "outcome-not-sequential", "state-not-sequential", "object-removed-while-referenced"}
+SYMPTOMS = {"deadlock", "outcome-not-sequential", "state-not-sequential", "object-removed-while-referenced",
+            "history-not-linearizable", "worker-hang", "mp-list-not-empty"}
 WATCHDOG_S = 7200
 
 
@@ -45,6 +49,10 @@ def shards(tier, seed):
             out.append((c, 2, 30, 0, s, None))
         for c, s in zip(chunk(triples, n * 2), split_seeds(seed + 7, n * 2)):
             out.append((c, 1, 60, 120, s, 400))
+        # independent cross-check of the yield-point assumption: REAL OS-scheduled threads with seeded
+        # micro-delays, histories recorded at the client boundary and checked by a Wing-Gong search
+        for s in split_seeds(seed + 707, n):
+            out.append(("free-running-threads", 150, s))
     return out
 
 
@@ -52,7 +60,14 @@ def min_required(tier):
     return {"schedules": 10000, "scenarios": 300, "schedules_with_a_waiting_thread": 500}
 
 
-def run_shard(scns, bound, n_random, pct, sub_seed, budget):
+def run_shard(*args):
+    if args[0] == "free-running-threads":
+        from .C16 import run_histories
+        res = run_histories(args[1], args[2], mode="threads")
+        res.counters["thread_histories"] = res.counters.pop("process_histories", 0)
+        res.counters["thread_calls_recorded"] = res.counters.pop("process_calls_recorded", 0)
+        return res
+    scns, bound, n_random, pct, sub_seed, budget = args
     return P.run_scenarios(scns, bound, n_random, pct, sub_seed, SYMPTOMS, budget=budget)
 
 
